@@ -268,6 +268,7 @@ def do_run(pid, mod, tier, seed, scale):
     failures = []
     extra = {}
     per_task = {}
+    notes = []
     for r in results:
         nontrivial |= r["nontrivial"]
         classes.update(r["classes"])
@@ -281,6 +282,8 @@ def do_run(pid, mod, tier, seed, scale):
             else:
                 extra[k] = v
         per_task[r["task"]] = {"evaluations": r["evaluations"], "wall_s": round(r["wall"], 2)}
+        for n in r.get("notes", []):
+            notes.append(n)
 
     # ---- 3. bucket -> shrink -> replay files -------------------------------------
     buckets = collections.OrderedDict()
@@ -340,6 +343,10 @@ def do_run(pid, mod, tier, seed, scale):
         "tasks": per_task,
     }
     cov.update(extra)
+    if notes:
+        cov["notes"] = notes[:50]
+        for n in notes[:20]:
+            print("note: " + n)
     ev = {
         "property_id": pid, "tier": tier, "seed": seed, "level": "exploration",
         "coverage": cov, "assumptions": list(getattr(mod, "ASSUMPTIONS", [])),
